@@ -352,3 +352,76 @@ Definition expected_verifyWithExecutor : list string := [
     entry machine_reset give the state; the theorems about a fresh session
     ([verify_after_reset_incremental_only_same_generation], ...) apply after each of them. *)
 Definition expected_sync_state_reset_sites : list string := ["Close"; "ResetLocalState"].
+
+(** snapshotReader, the streaming goroutine of a snapshot, as [Db/SnapRead.v] and the snapshot steps of
+    the machine were written against it: open the WAL, compare its salts with the ones the bound was
+    measured in (a637c7e: first "if _" failure exit), build the page map up to the bound, encode the
+    header, stream the pages ([db.writeLTXFromDB]) and ONLY THEN read the WAL header again and fail when
+    its salts changed (482a715: "call readWALHeader" followed by two failure exits) - the order
+    [SnapRead.header_recheck_sound] needs.  ".CloseWithError" is the failure exit of the stream. *)
+Definition expected_snapshotReader : list string := [
+  "on-error {";
+  "return error";
+  "}";
+  "go {";
+  "call os.Open";
+  "on-error {";
+  "call .CloseWithError";
+  "return";
+  "}";
+  "call NewWALReader";
+  "on-error {";
+  "call .CloseWithError";
+  "return";
+  "}";
+  "if _ {";
+  "call .CloseWithError";
+  "return";
+  "}";
+  "if _ {";
+  "call .pageMap";
+  "on-error {";
+  "call .CloseWithError";
+  "return";
+  "}";
+  "}";
+  "if _ {";
+  "call .CloseWithError";
+  "return";
+  "}";
+  "call snapshotHeaderWALRange";
+  "call ltx.NewEncoder";
+  "on-error {";
+  "call .CloseWithError";
+  "return";
+  "}";
+  "call .EncodeHeader";
+  "on-error {";
+  "call .CloseWithError";
+  "return";
+  "}";
+  "call db.writeLTXFromDB";
+  "on-error {";
+  "call .CloseWithError";
+  "return";
+  "}";
+  "if _ {";
+  "call readWALHeader";
+  "if _ {";
+  "call .CloseWithError";
+  "return";
+  "} else {";
+  "if _ {";
+  "call .CloseWithError";
+  "return";
+  "}";
+  "}";
+  "}";
+  "on-error {";
+  "call .CloseWithError";
+  "return";
+  "}";
+  "}";
+  "return"
+].
+
